@@ -23,8 +23,9 @@ PROPERTY = {
 
 
 def check(run):
-    from checks.main import reflection_bounded
+    from checks.main import reflection_bounded, splitoff_bounded
     reflection_bounded(run)
+    splitoff_bounded(run)
     run.verify_functions(RECOGNIZER + LOADER + STRIP + CONSTR)
     raw = langs.native_tables(run.repo)
     table = raw['loader']
